@@ -40,7 +40,7 @@ class EigStub:
 
 def case_pencil(ctx, variant):
     with ctx.concrete():
-        m = tiny_mesh("quad4x2" if variant != "hex8" else "hex8")
+        m = tiny_mesh({"hex8": "hex8", "axisymmetric": "quad4axi"}.get(variant, "quad4x2"))
         region = (fem.RegionQuad if m.dim == 2 else fem.RegionHexahedron)(m)
     E, rho = ctx.var("E", 0.5, 5), ctx.var("rho", 0.1, 5)
     items = []
@@ -51,7 +51,9 @@ def case_pencil(ctx, variant):
         umat = fem.NearlyIncompressible(fem.NeoHooke(mu=E), bulk=ctx.var("bulk", 1, 50))
         items.append(fem.SolidBody(umat, field, density=rho))
     else:
-        if m.dim == 2:
+        if variant == "axisymmetric":
+            field = fem.FieldContainer([fem.FieldAxisymmetric(region, dim=2)])
+        elif m.dim == 2:
             field = fem.FieldContainer([fem.FieldPlaneStrain(region, dim=2)])
         else:
             field = fem.FieldContainer([fem.Field(region, dim=3)])
@@ -169,7 +171,7 @@ def case_rigid_invariance(ctx):
 
 
 def cases(tier):
-    out = [("pencil", case_pencil, {"variant": v}) for v in ("single", "two_items", "multiplier_first", "three_items", "mixed", "x0")]
+    out = [("pencil", case_pencil, {"variant": v}) for v in ("single", "two_items", "multiplier_first", "three_items", "mixed", "x0", "axisymmetric")]
     out.append(("rigid_modes", case_rigid_modes, {"dim": 2}))
     out.append(("rigid_modes", case_rigid_modes, {"dim": 3}))
     if tier == "thorough":
